@@ -154,7 +154,9 @@ Definition check_glue (c : sexp) : sexp :=
       | Some (SSym stream), Some (SSym api), Some st, Some [SSym cls; SStr detail] =>
           (* --- oracle: normal return, serialisable, data or errors *)
           if negb (String.eqb cls "ok" || String.eqb cls "errors") then
-            let key := if String.eqb cls "panic" then "panic:" ++ string_of_bytes (map key_char (upto_colon detail)) else cls in
+            let key := if String.eqb cls "panic" then "panic:" ++ string_of_bytes (map key_char (upto_colon detail))
+                       else if String.eqb cls "timeout" then "timeout:" ++ stream ++ ":" ++ api    (* which family, which entry point *)
+                       else cls in
             v_oracle_fail key [SStr detail]
           else
           match dec_resp l with
